@@ -77,9 +77,9 @@ struct block *g_b, *g_jb0, *g_jb1, *g_l1, *g_l2;
 	/* 6.8.4.1p2 / 6.8.5p4: the branch is taken iff the expression compares unequal to 0 */ \
 	X(IMP(OPEN && g_hast && !g_flt, !rec.nonint && (TESTED != 0) == (CVAL != 0))) \
 	/* floating: one c{ne}{s,d} against a zero constant of the same class, word result, tested directly */ \
-	X(IMP(OPEN && g_hast && g_flt, rec.n == 1 && rec.log[0].cls == 'w' && rec.log[0].arg[0] == g_v && g_b->jump.arg == rec.log[0].resp)) \
-	X(IMP(OPEN && g_hast && g_flt && g_sz == 4, rec.log[0].op == ICNES && rec.log[0].arg[1] != 0 && rec.log[0].arg[1]->kind == VALUE_FLTCONST && rec.log[0].arg[1]->u.f == 0.0)) \
-	X(IMP(OPEN && g_hast && g_flt && g_sz == 8, rec.log[0].op == ICNED && rec.log[0].arg[1] != 0 && rec.log[0].arg[1]->kind == VALUE_DBLCONST && rec.log[0].arg[1]->u.f == 0.0)) \
+	X(IMP(OPEN && g_hast && g_flt, rec.n == 1 && rec.first.cls == 'w' && rec.first.arg[0] == g_v && g_b->jump.arg == rec.first.resp)) \
+	X(IMP(OPEN && g_hast && g_flt && g_sz == 4, rec.first.op == ICNES && rec.first.arg[1] != 0 && rec.first.arg[1]->kind == VALUE_FLTCONST && rec.first.arg[1]->u.f == 0.0)) \
+	X(IMP(OPEN && g_hast && g_flt && g_sz == 8, rec.first.op == ICNED && rec.first.arg[1] != 0 && rec.first.arg[1]->kind == VALUE_DBLCONST && rec.first.arg[1]->u.f == 0.0)) \
 	/* frame */ \
 	X(f->end == g_b && g_v->u.i == g_x) \
 	CANARY(X, !(OPEN && g_hast && g_sz == 8 && !g_flt && g_x == 0x100000000ull))
